@@ -15,7 +15,7 @@ import os
 import struct
 
 from vf import build, coq, forest as F, mch, mcgen
-from vf.core import sh
+from vf.core import VERIF, sh
 
 KEY_DEPTH = "depth-ge-1024"
 
@@ -368,7 +368,8 @@ def c_program(fo_main, fo_threads, loc_of=None):
            # the program's own readings of the clock uftrace uses (CLOCK_MONOTONIC), taken just before a call and
            # just after its return; clock_gettime is expanded inline (vDSO call, never instrumented)
            "static unsigned long long BR[4096][2]; static int nbr;",
-           "#define NOW(x) do { struct timespec ts_; clock_gettime(CLOCK_MONOTONIC, &ts_); "
+           "#ifndef VERIF_CLOCK\n#define VERIF_CLOCK CLOCK_MONOTONIC\n#endif",
+           "#define NOW(x) do { struct timespec ts_; clock_gettime(VERIF_CLOCK, &ts_); "
            "(x) = ts_.tv_sec * 1000000000ULL + ts_.tv_nsec; } while (0)",
            "#define BRACKET(i, call) do { NOW(BR[i][0]); call; NOW(BR[i][1]); } while (0)"]
     cnt = [0]
@@ -485,6 +486,8 @@ def e2e(ctx, objdir):
     work = os.path.join(ctx.scratch, "e2e")
     os.makedirs(work, exist_ok=True)
     nprog = ctx.n(3, 20)
+    shim = os.path.join(work, "clock_shift_shim.so")
+    sh(["gcc", "-shared", "-fPIC", "-O1", "-o", shim, os.path.join(VERIF, "harness/c/clock_shift_shim.c"), "-ldl"], check=True)
     for pi in range(nprog):
         fo_main = F.gen_shape(rng, 6, rng.choice([3, 10, 25]), 6)
         fo_threads = [F.gen_shape(rng, 6, rng.choice([3, 8]), 5) for _ in range(rng.choice([0, 1, 3]))]
@@ -493,13 +496,21 @@ def e2e(ctx, objdir):
         open(cfile, "w").write(src)
         for mname, cflags, rflags in METHODS:
             exe = os.path.join(work, "p%d_%s" % (pi, mname))
-            rc, o, e = sh(["gcc", "-O%s" % rng.choice("012"), "-o", exe, cfile, "-pthread"] + cflags, timeout=120)
+            # the clock the trace is stamped with (record --clock=): the program reads the same one for its brackets;
+            # the shim moves the three clocks 1000 s apart so that a wrong clock cannot pass by accident
+            clk = rng.choice([None, "mono", "mono_raw", "boot"])
+            cid = {None: "CLOCK_MONOTONIC", "mono": "CLOCK_MONOTONIC", "mono_raw": "CLOCK_MONOTONIC_RAW",
+                   "boot": "CLOCK_BOOTTIME"}[clk]
+            rflags = rflags + (["--clock=" + clk] if clk else [])
+            rc, o, e = sh(["gcc", "-O%s" % rng.choice("012"), "-DVERIF_CLOCK=" + cid, "-o", exe, cfile, "-pthread"] + cflags,
+                          timeout=120)
             if rc != 0:
                 ctx.broken("e2e program does not compile with %s" % cflags, e[-500:])
                 continue
             dd = os.path.join(work, "d%d_%s" % (pi, mname))
             rc, o, e = sh(["timeout", "60", uft, "record", "--no-pager", "--no-event", "--no-libcall",
-                           "--libmcount-path=" + objdir, "-d", dd] + rflags + [exe], timeout=90)
+                           "--libmcount-path=" + objdir, "-d", dd] + rflags + [exe], timeout=90,
+                          env={"LD_PRELOAD": shim})
             if rc != 0:
                 ctx.violation("uftrace record failed/timed out on a generated program (rc=%d)" % rc,
                               {"mode": "e2e", "method": mname, "program": src, "stderr": e[-500:]}, True)
@@ -531,7 +542,7 @@ def e2e(ctx, objdir):
                     ent, ext = tops[2 * j], tops[2 * j + 1]
                     if not (ent[0] == 0 and ext[0] == 1 and br[ix][0] <= ent[3] <= ext[3] <= br[ix][1]):
                         bracket_bad.append((v[0][2], j, br[ix], ent[3], ext[3]))
-            ctx.case(key=("e2e", mname, src), tags=["e2e:" + mname, "e2e:threads=%d" % len(fo_threads)],
+            ctx.case(key=("e2e", mname, src), tags=["e2e:" + mname, "e2e:threads=%d" % len(fo_threads), "e2e:clock=" + str(clk)],
                      size=sum(len(x) for x in expect))
             if bracket_bad and got == sorted(expect):
                 ctx.violation("C02 (end-to-end, %s): a recorded timestamp lies outside the program's own clock readings taken "
